@@ -313,6 +313,33 @@ class Enumerator:
                     self.on_call(st, bi, t)
                 if t.get("t") is None:
                     return  # diverges
+                # `?` on a Result / Option and `map_err` / `map` keep which side the value is on
+                cn = callee(t)
+                if t["args"] and not is_const(t["args"][0]) and \
+                        re.search(r"Try>::branch$|Result::<.*>::map_err$|Result::<T, E>::map_err$|Result::<.*>::map$|Option::<.*>::map$", cn):
+                    av = self.val_of(st, t["args"][0])
+                    side = None
+                    if av and av[0] in ("agg", "variant") and av[2] in ("Ok", "Err", "Some", "None"):
+                        side = av[2]
+                    elif av and av[0] == "callres" and isinstance(st.disc.get(f"call:{av[1]}"), str):
+                        side = st.disc.get(f"call:{av[1]}")
+                    else:
+                        try:
+                            side = st.disc.get(self.key_of(op_place(t["args"][0])))
+                        except Exception:
+                            side = None
+                    if isinstance(side, str) and side in ("Ok", "Err", "Some", "None"):
+                        if cn.endswith("Try>::branch"):
+                            side = {"Ok": "Continue", "Some": "Continue", "Err": "Break", "None": "Break"}[side]
+                        st.disc[f"call:{bi}"] = side
+                        st.hist.append((f"call:{bi}", side))
+                if cn.endswith("FromResidual>::from_residual") or re.search(r"FromResidual<.*>>::from_residual$", cn):
+                    # the value built from a residual is always on the failure side
+                    rty = fn.local_ty(t["dst"]["l"]) if not t["dst"].get("p") else ""
+                    side = "Err" if "result::Result" in rty else "None" if "option::Option" in rty else None
+                    if side:
+                        st.disc[f"call:{bi}"] = side
+                        st.hist.append((f"call:{bi}", side))
                 if not t["dst"].get("p"):
                     st.vals[t["dst"]["l"]] = ("callres", bi)
                     et = self._eq_test(st, t)
@@ -478,9 +505,11 @@ class Enumerator:
                     if dec is None:
                         s2 = st.clone()
                         s2.decisions[cb] = True
+                        s2.hist.append((f"dec:{cb}", True))
                         self._set_callres(s2, cb, True)
                         self._walk(fl if neg else tr, s2, out)
                         st.decisions[cb] = False
+                        st.hist.append((f"dec:{cb}", False))
                         self._set_callres(st, cb, False)
                         bi = tr if neg else fl
                         continue
@@ -651,3 +680,35 @@ class Enumerator:
                 st.vals[l] = ("const", val)
             elif v and v[0] == "notcallres" and v[1] == cb:
                 st.vals[l] = ("const", not val)
+
+
+def first_iteration(st, head):
+    """(calls, blocks, constraint history) of the first iteration of the loop whose head is the block `head` (the block
+    ending in the iterator's next() call) on an enumerated path"""
+    calls1, seen = [], 0
+    for b, c, t in st.calls:
+        if b == head:
+            seen += 1
+            if seen == 2:
+                break
+            continue
+        if seen == 1:
+            calls1.append((b, c, t))
+    blocks1, started = set(), False
+    for b in st.trail:
+        if b == head:
+            if started:
+                break
+            started = True
+        if started:
+            blocks1.add(b)
+    hist1, seen = [], 0
+    for k, v in st.hist:
+        if k == f"call:{head}":
+            seen += 1
+            if seen == 2:
+                break
+            continue
+        if seen == 1:
+            hist1.append((k, v))
+    return calls1, blocks1, hist1
